@@ -94,7 +94,7 @@ def _replay(c, tier, dist=False, exhaustive_m1=True):
             c.replay_phase("d2", "TimeWarpMC_d2.tla", "TimeWarpMC_d2_k1.cfg", 6000, ranks=2, threads=2, sim_num=2500)
 
 
-def _sys(pid, tier, seed, own, fams, nq, nt, cq, ct, emphasis=None, size_q="small", size_t="small", fixed=None, mc=None, replay=False):
+def _sys(pid, tier, seed, own, fams, nq, nt, cq, ct, emphasis=None, size_q="small", size_t="small", fixed=None, mc=None, replay=False, real=0):
     c = syscamp.Campaign(pid, tier, seed, own_ids=own)
     try:
         c.build()
@@ -102,6 +102,8 @@ def _sys(pid, tier, seed, own, fams, nq, nt, cq, ct, emphasis=None, size_q="smal
             _tw_mc(c, tier, mc[0] if tier == "quick" else mc[0] + mc[1])
         if replay:
             _replay(c, tier)
+        if real:
+            c.real_phase(_models(tier, seed + 80, ["mixed", "fanout", "ties", "zerodelay"], 2, 8, "medium", "medium"), real if tier == "quick" else real * 8)
         c.run(_models(tier, seed, fams, nq, nt, size_q, size_t), cq if tier == "quick" else ct, emphasis=emphasis,
               fixed_cfgs=fixed)
         return c.finish()
@@ -112,9 +114,10 @@ def _sys(pid, tier, seed, own, fams, nq, nt, cq, ct, emphasis=None, size_q="smal
 def check_C01(tier, seed):
     mc = ([("TimeWarpMC_m1.tla", "TimeWarpMC_m1_k1.cfg", "m1 (2 LPs, straggler + anti before/after processing)", 1),
            ("TimeWarpMC_m1.tla", "TimeWarpMC_m1_k3.cfg", "m1", 3)],
-          [("TimeWarpMC_m2.tla", "TimeWarpMC_m2_k1.cfg", "m2 (3 LPs, cascade of depth 2, zero-delay tie)", 1),
+          [("TimeWarpMC_m3.tla", "TimeWarpMC_m3_k1.cfg", "m3 (3 LPs on 3 threads: straggler against a history entry cancelled in place)", 1),
+           ("TimeWarpMC_m2.tla", "TimeWarpMC_m2_k1.cfg", "m2 (3 LPs, cascade of depth 2, zero-delay tie)", 1),
            ("TimeWarpMC_m2.tla", "TimeWarpMC_m2_k3.cfg", "m2", 3)])
-    return _sys("C01", tier, seed, ["C01", "C03"], ["mixed", "ties", "zerodelay", "fanout", "chain", "single", "relay", "chain"], 8, 40, 5, 12, mc=mc, replay=True)
+    return _sys("C01", tier, seed, ["C01", "C03"], ["mixed", "ties", "zerodelay", "fanout", "chain", "single", "relay", "chain"], 8, 40, 5, 12, mc=mc, replay=True, real=10)
 
 
 MCG_NOTE = ("TimeWarpMC with an abstract GVT (any safe lower bound, same value for every thread of a round, two values) and fossil collection "
@@ -240,10 +243,16 @@ def check_C06(tier, seed):
         _tw_mc(c, tier, [("TimeWarpMC_m1.tla", "TimeWarpMC_m1.cfg", "m1 (2 LPs: cancel before extraction / after processing / while re-queued)", 2),
                          ("TimeWarpMC_m2.tla", "TimeWarpMC_m2_k2.cfg", "m2 (3 LPs, cascade of depth 2)", 2)] +
                ([("TimeWarpMC_m2.tla", "TimeWarpMC_m2_k1.cfg", "m2", 1), ("TimeWarpMC_m2.tla", "TimeWarpMC_m2_k3.cfg", "m2", 3)] if tier == "thorough" else []))
+        c.mc_phase("TimeWarpMC_m3.tla", "TimeWarpMC_m3_k1.cfg", MC_NOTE % ("m3 (3 LPs on 3 threads: an event arrives while the entry it has to precede was "
+                   "cancelled in place and the anti-message copy is not yet re-inserted)", 1), workers=8, timeout=1500, heap="8g")
+        c.probe_phase("TimeWarpMC_m3.tla", "TimeWarpMC_m3_k1.cfg", [("Probe_NoStragglerOverCancelledEntry", "a straggler is matched against a history "
+                      "that holds an entry cancelled in place")], workers=4, timeout=600, heap="4g")
         _tw_mc_dist(c, tier)
         # the real code on the same micro-models, under many schedules (distinct interleavings of the shared accesses)
         c.micro_phase("m1", 64 if tier == "quick" else 3000)
         c.micro_phase("m2", 64 if tier == "quick" else 3000)
+        c.micro_phase("m3", 48 if tier == "quick" else 3000, threads=3)
+        c.replay_phase("m3", "TimeWarpMC_m3.tla", "TimeWarpMC_m3_k1.cfg", 80 if tier == "quick" else 6000, threads=3, sim_num=40 if tier == "quick" else 2500)
         c.micro_phase("d1", 48 if tier == "quick" else 2000, ranks=2, threads=1)
         c.micro_phase("d2", 48 if tier == "quick" else 2000, ranks=2, threads=2)
         _replay(c, tier, dist=True, exhaustive_m1=False)   # (every behaviour of m1 is replayed by ./check C01 thorough)
@@ -348,7 +357,7 @@ def check_C09(tier, seed):
              for (t, k, b, p, sw) in [(1, 0, 64, 400, "1/4"), (2, 1, 1, 0, "1/2"), (3, 3, 2, 0, "1/24"), (4, 7, 1, 50, "1/8"),
                                       (6, 2, 4, 0, "1/96"), (2, 0, 1, 0, "1/1")]]
     return _sys("C09", tier, seed, ["C09", "C01", "C03", "C05"], ["mixed", "fanout", "ties", "zerodelay"], 5, 24, 1, 6,
-                None, fixed=fixed)
+                None, fixed=fixed, real=20)
 
 
 def check_C13(tier, seed):
@@ -716,6 +725,8 @@ def check_C15(tier, seed):
         # teardown): every Push / Drain / Extract of a system trace is checked by the C15-labelled checks of TimeWarp.tla
         em = lambda r: {"threads": r.choice([2, 3, 4, 6]), "switch": r.choice(["1/2", "1/8", "1/24", "1/96", "1/300"]), "policy": r.choice([0, 1, 1, 2])}
         c.run(_models(tier, seed, ["mixed", "fanout", "ties", "zerodelay"], 4, 16), 4 if tier == "quick" else 10, emphasis=em)
+        # truly concurrent threads: a lost or duplicated insertion changes the final states (or the run does not return)
+        c.real_phase(_models(tier, seed + 80, ["fanout", "mixed"], 2, 6, "medium", "medium"), 10 if tier == "quick" else 80, labels=("C15",))
         return c.finish(rule="model checking: every interleaving for 2-3 producers and 4-5 messages with ties; binding: 1..4 real producer threads x 4..12 messages "
                              "each (4 distinct timestamps, cancelled entries) + the consumer mixing extract and time_peek, schedules switching between load and CAS "
                              "(distinct by seed); one validated line per push, swap, extraction, peek; the same Push/Drain/Extract checks run inside every system trace",
@@ -817,6 +828,10 @@ def check_C02(tier, seed):
                         "batch": r.choice([1, 1, 2, 8]), "period": r.choice([0, 0, 40])}
         c.run(_models(tier, seed, ["mixed", "fanout", "ties", "zerodelay", "pingpong", "nonmono", "chain"], 7, 36), 6 if tier == "quick" else 14, emphasis=em)
         # several same-timestamp events sent to one remote LP and cancelled together while the receiver is busy: several early anti-messages at once
+        # a token bouncing between two ranks with nothing else pending: the distributed GVT has to follow it (same phase as in ./check C04)
+        pem = lambda r: {"ranks": 2, "threads": r.choice([1, 1, 1, 2]), "net": r.choice([0, 1]), "batch": 1, "period": 0, "skew": r.choice([0, 0, 80, 160, 320]),
+                         "policy": r.choice([2, 2, 0, 4]), "switch": r.choice(["1/1", "1/2", "1/3", "1/3", "1/4"])}
+        c.run(_models(tier, seed + 70, ["pingpong"], 5, 20), 10 if tier == "quick" else 16, emphasis=pem)
         bem = lambda r: {"ranks": r.choice([2, 2, 3]), "threads": r.choice([1, 1, 2]), "net": r.choice([0, 1]), "batch": r.choice([1, 1, 4]), "period": 0}
         c.run(_models(tier, seed + 30, ["burst"], 3, 16), 6 if tier == "quick" else 14, emphasis=bem)
         return c.finish(rule="generated models x (2-3 ranks) x (1-3 threads per rank) x checkpoint interval x batch x GVT period x scheduler seeds; the ranks are "
